@@ -43,6 +43,12 @@ def run(tier: str, seed: int, rep: Report, model: Model) -> dict:
                 rep.streams["with_omitted_defaults"] = rep.streams.get("with_omitted_defaults", 0) + 1
             cases.append(c)
             where.append(w)
+    # the body returns its own argument: the same object is demanded to fit the return annotation as well
+    own = GC.returns_argument_cases(rnd, depth(tier, 300, 6000))
+    rep.streams["body_returns_its_argument"] = len(own)
+    for c in own:
+        cases.append(c)
+        where.append("ret")
     worker = ImplWorker("harness.ctxrun")
     try:
         for (case, im, mo, raw), w in zip(ctxrun.run_cases(cases, model, worker), where):
